@@ -9,6 +9,7 @@ CONSTANTS
   LP = 1
   LQ = 1
   LR = 0
+  Ext = {}
 SPECIFICATION PathsSpec
 INVARIANT DesignYSpell
 CHECK_DEADLOCK FALSE
